@@ -478,6 +478,7 @@ class RegisterList(Contract):
     class_paths = (PATH,)
     overloads = ("intermediate/notify", "intermediate/quiet")
     assumptions = ("A-PY", "object._on_trait_change is the legacy attachment primitive (summary); the link's current value is a finite sequence of items")
+    M_LINK, M_ITEMS, LOOP, MAINT_DISPATCH, VALUES = "handle_list", "handle_list_items", "for obj in getattr(object, name)", "extended", False
 
     def configure(self, cx, I, ov):
         from vc.pyvc import source
@@ -496,8 +497,18 @@ class RegisterList(Contract):
 
         def dyn_getattr(I2, args, st, k):
             r = VRef(I2.cx.new_oid())
-            return k(r, lg(st.put(r.oid, HObj("list", self.items)), ("read-link", args[1])))
+            st2 = lg(st.put(r.oid, HObj("list", self.items)), ("read-link", args[1]))
+            if self.VALUES:
+                # a mapping: the loop runs over its values
+                return k(VFunc("valueview", values=VFunc("opaque", name="values", apply=lambda I3, a, kw, s, kk: kk(r, s))), st2)
+            return k(r, st2)
         cx.dyn_getattr_hook = dyn_getattr
+
+        def getattr_hook(I2, obj, name, st, k):
+            if isinstance(obj, VFunc) and obj.kind == "valueview" and name == "values":
+                return k(obj.values, st)
+            return None
+        cx.getattr_hook = getattr_hook
 
         class GetTarget(Contract):
             path = PATH
@@ -518,7 +529,7 @@ class RegisterList(Contract):
             cx.axioms.append(z3.Extract(seq, 0, z3.Length(seq)) == seq)
             return [("one-walk-per-item-so-far", z3.If(self.remove, z3.And(st.ghost["unregistered"] == bag(pre), st.ghost["registered"] == ZERO),
                                                        z3.And(st.ghost["registered"] == bag(pre), st.ghost["unregistered"] == ZERO)))]
-        cx.on_loop = loops.make_hook({0: loops.LoopSpec("for obj in getattr(object, name)", [], inv, ghost=["registered", "unregistered", "order_ok"])})
+        cx.on_loop = loops.make_hook({0: loops.LoopSpec(self.LOOP, [], inv, ghost=["registered", "unregistered", "order_ok"])})
 
     def setup(self, cx, I, ov):
         st, _unused = listener_self(cx)
@@ -551,13 +562,13 @@ class RegisterList(Contract):
             return isinstance(h, VFunc) and h.kind == "bound" and h.name == nm and h.self_ref.oid == self.self_ref.oid
         users = [r for r in att if r[1] and isinstance(r[1][0], VElem) and r[1][0].t.eq(self.user)]
         special = [r for r in att if maint(r, "handle_list_items_special")]
-        m_list = [r for r in att if maint(r, "handle_list") and on(r, self.name)]
-        m_items = [r for r in att if maint(r, "handle_list_items") and on(r, items_name)]
+        m_list = [r for r in att if maint(r, self.M_LINK) and on(r, self.name)]
+        m_items = [r for r in att if maint(r, self.M_ITEMS) and on(r, items_name)]
         flags = z3.And(*[z3.And(r[2]["remove"].t == self.remove if isinstance(r[2].get("remove"), VBool) else z3.BoolVal(False),
                                 z3.BoolVal(isinstance(r[2].get("target"), VElem) and r[2]["target"].t.eq(self.target))) for r in att]) if att else z3.BoolVal(True)
-        ext = all(isinstance(r[2].get("dispatch"), VStr) and r[2]["dispatch"].const == "extended" for r in m_list + m_items)
+        ext = all(isinstance(r[2].get("dispatch"), VStr) and r[2]["dispatch"].const == self.MAINT_DISPATCH for r in m_list + m_items)
         out = [("post:every-attachment-carries-the-caller's-remove-flag-and-the-item's-target", flags),
-               ("post:both-maintainers-of-the-container-link-are-attached-once-with-extended-dispatch", z3.BoolVal(len(m_list) == 1 and len(m_items) == 1 and ext))]
+               ("post:both-maintainers-of-the-container-link-are-attached-once-with-their-dispatch", z3.BoolVal(len(m_list) == 1 and len(m_items) == 1 and ext))]
         if ov == "intermediate/quiet":
             out.append(("post:a-quiet-link-(':')-reports-nothing-to-the-user-handler", z3.BoolVal(not users and not special)))
         else:
@@ -573,3 +584,11 @@ class RegisterList(Contract):
     def covers(self, cx, ov, info):
         return [("registers", lambda k, p, s: z3.And(z3.BoolVal(k == "return"), z3.Not(self.remove))),
                 ("removes", lambda k, p, s: z3.And(z3.BoolVal(k == "return"), self.remove))]
+
+
+@register
+class RegisterDict(RegisterList):
+    """ListenerItem._register_dict: the same discipline for a mapping link -- maintainers handle_dict / handle_dict_items (attached
+    with the item's own dispatch), the user's handler iff the link notifies, every current VALUE of the mapping walked once."""
+    qualname = "ListenerItem._register_dict"
+    M_LINK, M_ITEMS, LOOP, MAINT_DISPATCH, VALUES = "handle_dict", "handle_dict_items", "for obj in getattr(object, name).values()", "same", True
